@@ -11,7 +11,7 @@ func init() {
 	register(&propDef{
 		id: "C32", title: "Relocation places every actor and grain of a departed node exactly once",
 		technique: "partition rule over loop bodies (every iteration appends the element to exactly one destination on every path), guard dominance for eligibility, slice-partition rule for the grain chunks, strict-comparator rule for least-loaded choice",
-		explanation: "Decides: (1) allocateActors: every actor of the departed node is appended, on every path of the loop body, to exactly one of the leader's singleton share, the share of the chosen target, or the unplaceable list; a target is chosen only among targets whose roles make the actor eligible; 'unplaceable' only when no eligible target exists (best == -1); the choice is the first strictly smaller load and the chosen target's load is incremented after placement; singletons are tested first; (2) reassignByRole: every actor of a failed share goes to exactly one of a survivor share, the leader's list or the recorded failures; (3) allocateGrains: the leader's remainder slice [:r] and the chunked rest [r:] use the same bound, so they partition the input; the leader additionally takes chunk 0, and the peer loop in relocate starts at index 1 (chunk 0 is not also sent to a peer); (4) relocatableGrains drops only grains that disabled relocation; (5) in relocate, peer i-1 receives share i (index agreement) and unplaceable actors are recorded as failures. Added after seed C32a: lists derived from the peers list (survivingPeersExcept) are fresh slices; the peers list is neither written through nor re-used as backing store (purity engine).",
+		explanation: "Decides: (1) allocateActors: every actor of the departed node is appended, on every path of the loop body, to exactly one of the leader's singleton share, the share of the chosen target, or the unplaceable list; a target is chosen only among targets whose roles make the actor eligible; 'unplaceable' only when no eligible target exists (best == -1); the choice is the first strictly smaller load and the chosen target's load is incremented after placement; singletons are tested first; (2) reassignByRole: every actor of a failed share goes to exactly one of a survivor share, the leader's list or the recorded failures; (3) allocateGrains: the leader's remainder slice [:r] and the chunked rest [r:] use the same bound, so they partition the input; the leader additionally takes chunk 0, and the peer loop in relocate starts at index 1 (chunk 0 is not also sent to a peer); (4) relocatableGrains drops only grains that disabled relocation; (5) in relocate, peer i-1 receives share i (index agreement) and unplaceable actors are recorded as failures. Added after seed C32a: lists derived from the peers list (survivingPeersExcept) are fresh slices; the peers list is neither written through nor re-used as backing store (purity engine). Made explicit after seed C32b: the candidate index is defined, as -1, inside the per-actor loop body.",
 		assumptions: []string{"load optimality of the placement", "chunk.Chunkify splits its argument into consecutive chunks covering it exactly (checked by its unit tests)"},
 		minObl:     13,
 		run:        runC32,
@@ -103,6 +103,7 @@ func runC32(c *Ctx) {
 			}
 			return true
 		})
+		c.Check(bestObj != nil, "allocateActors/best-reset-per-actor", "the candidate index starts at -1 for every actor (it is defined, as -1, inside the per-actor loop body): a value carried over from the previous actor places this actor on that actor's target, eligible or not, and hides an unplaceable actor", c.P.Pos(rng.Pos()), "no variable is defined as -1 inside the loop over the departed node's actors")
 		isRole := func(o types.Object, name string) bool {
 			switch name {
 			case "best":
